@@ -313,7 +313,7 @@ def explore_shard(acc, shard):
 
 def explore(run):
     shards = []
-    plan = [("coarse", "dyadic", 3, 4), ("fine", "dyadic", 3, 4), ("shifted", "dyadic", 3, 4), ("coarse", "decimal", 2, 3)]
+    plan = [("coarse", "dyadic", 3, 4), ("fine", "dyadic", 3, 4), ("shifted", "dyadic", 3, 4), ("coarse", "decimal", 2, 3), ("fine", "fast", 2, 3), ("coarse", "slow", 2, 3)]
     for grid, fam, q, t in plan:
         max_events = t if run.thorough() else q
         shards.append(("sets", grid, fam, None, max_events, run.seed))
